@@ -197,3 +197,111 @@ def t_settings_frame():
     info = [{"function": q, "source_sha": src.source_hash(q), "where": src.where(q), "paths": None, "assumptions": ["json_extends returns a fresh dict (task json_extends, clause C07)"]}
             for q in ("SequentialRunner._generate_markets", "SequentialRunner._generate_agents", "SequentialRunner._generate_sessions")]
     return {"obligations": obl, "info": info}
+
+
+# ----------------------------------------------------------------------------- no state shared between runs or between instances (C07 "earlier runs in the same process"; C15/C16 each rule has its own targets)
+MUTATORS_ = {"append", "extend", "insert", "add", "update", "setdefault", "pop", "popitem", "clear", "remove", "discard", "sort", "reverse"}
+
+
+def _mutable_value(v):
+    if isinstance(v, (ast.Dict, ast.List, ast.Set, ast.ListComp, ast.DictComp, ast.SetComp)):
+        return True
+    if isinstance(v, ast.Call):
+        f = v.func
+        nm = f.id if isinstance(f, ast.Name) else (f.attr if isinstance(f, ast.Attribute) else "")
+        return nm in ("dict", "list", "set", "defaultdict", "OrderedDict", "deque", "Counter")
+    return False
+
+
+def _root_name(node):
+    while isinstance(node, (ast.Subscript, ast.Attribute)):
+        node = node.value
+    return node
+
+
+def _mutations(fn):
+    """(kind, target expression) for every in-place mutation in a function: subscript / attribute stores, augmented assignments, deletes, mutator calls"""
+    out = []
+    for n in ast.walk(fn):
+        tg = []
+        if isinstance(n, ast.Assign):
+            tg = n.targets
+        elif isinstance(n, (ast.AugAssign, ast.AnnAssign)) and getattr(n, "value", True) is not None:
+            tg = [n.target]
+        elif isinstance(n, ast.Delete):
+            tg = n.targets
+        for t in tg:
+            for tt in (t.elts if isinstance(t, ast.Tuple) else [t]):
+                if isinstance(tt, ast.Subscript):
+                    out.append(("store", tt.value))
+        if isinstance(n, ast.Call) and isinstance(n.func, ast.Attribute) and n.func.attr in MUTATORS_:
+            out.append(("call", n.func.value))
+    return out
+
+
+@task("effects:no-shared-mutable-state", props=["C07", "C13", "C15", "C16", "C18"], functions=[], replay=None)
+def t_shared_state():
+    """no function mutates a module-level container, rebinds a module-level name, or mutates a container that exists only as a CLASS attribute (shared by all instances):
+    every run and every event / market / agent instance works on state created for it"""
+    src = get_src()
+    obl = []
+    n_checked = 0
+    trees = {f: ast.parse(t) for f, t in src.files.items()}
+    for f, tree in trees.items():
+        rel = f[len(src.repo) + 1:]
+        mod_mut = set()
+        mod_names = set()
+        for n in tree.body:
+            if isinstance(n, (ast.Assign, ast.AnnAssign)) and getattr(n, "value", None) is not None:
+                for t in (n.targets if isinstance(n, ast.Assign) else [n.target]):
+                    if isinstance(t, ast.Name):
+                        mod_names.add(t.id)
+                        if _mutable_value(n.value):
+                            mod_mut.add(t.id)
+        for node in ast.walk(tree):
+            if not isinstance(node, ast.ClassDef):
+                continue
+            cls_mut = set()
+            for n in node.body:
+                if isinstance(n, (ast.Assign, ast.AnnAssign)) and getattr(n, "value", None) is not None and _mutable_value(n.value):
+                    for t in (n.targets if isinstance(n, ast.Assign) else [n.target]):
+                        if isinstance(t, ast.Name):
+                            cls_mut.add(t.id)
+            # attributes (re)bound per instance in __init__ shadow the class attribute
+            init = [m for m in node.body if isinstance(m, ast.FunctionDef) and m.name == "__init__"]
+            own = set()
+            for m in init:
+                for n in ast.walk(m):
+                    if isinstance(n, (ast.Assign, ast.AnnAssign)):
+                        for t in (n.targets if isinstance(n, ast.Assign) else [n.target]):
+                            if isinstance(t, ast.Attribute) and isinstance(t.value, ast.Name) and t.value.id == "self":
+                                own.add(t.attr)
+            shared = cls_mut - own
+            for m in node.body:
+                if not isinstance(m, ast.FunctionDef):
+                    continue
+                n_checked += 1
+                bad = []
+                for kind, tgt in _mutations(m):
+                    if isinstance(tgt, ast.Attribute) and isinstance(tgt.value, ast.Name) and tgt.value.id in ("self", "cls", node.name) and tgt.attr in shared:
+                        bad.append(ast.unparse(tgt))
+                obl.append({"name": f"effects:no-shared-mutable-state/{node.name}.{m.name}/frame:no container that exists only as a class attribute is mutated" + ("" if not bad else f" -- {bad[:2]} (class-level default, not re-created in __init__)"),
+                            "pc": [], "goal": z3.BoolVal(not bad), "kind": "frame"})
+        for node in ast.walk(tree):
+            if not isinstance(node, ast.FunctionDef):
+                continue
+            n_checked += 1
+            local = {a.arg for a in node.args.args + node.args.kwonlyargs} | {t.id for n in ast.walk(node) if isinstance(n, (ast.Assign, ast.AnnAssign, ast.For)) for t in ([n.target] if not isinstance(n, ast.Assign) else n.targets) if isinstance(t, ast.Name)}
+            glob = {nm for n in ast.walk(node) if isinstance(n, ast.Global) for nm in n.names}
+            bad = [f"global {g}" for g in sorted(glob)]
+            for kind, tgt in _mutations(node):
+                r = _root_name(tgt)
+                if isinstance(r, ast.Name) and r.id in mod_mut and (r.id not in local or r.id in glob):
+                    bad.append(ast.unparse(tgt))
+            if bad or mod_mut:
+                obl.append({"name": f"effects:no-shared-mutable-state/{rel}:{node.name}/frame:no module-level container is mutated and no module-level name is rebound" + ("" if not bad else f" -- {bad[:2]}"),
+                            "pc": [], "goal": z3.BoolVal(not bad), "kind": "frame"})
+    obl.append({"name": "effects:no-shared-mutable-state/cover:functions scanned", "pc": [], "goal": z3.BoolVal(n_checked > 150), "kind": "cover"})
+    info = [{"function": "all of pams (module-level and class-level containers)", "source_sha": None, "where": "pams/**", "paths": None,
+             "assumptions": ["mutation through aliases of a module- or class-level container (e.g. handing it out and mutating the alias elsewhere) is not detected by this scan"]}]
+    return {"obligations": obl, "info": info}
